@@ -88,6 +88,10 @@ def gen_field(rng, kind):
         _, ek, delim = kind.split(":", 2)
         n = rng.choice([0, 1, 2, 3, 5])
         items = [gen_value(rng, ek) for _ in range(n)]
+        if ek == "item" and delim in (",", "|") and n >= 1 and rng.random() < 0.25:
+            # an empty element - first, in the middle or last - is an element like any other for these delimiters
+            for _ in range(rng.choice([1, 1, 2])):
+                items.insert(rng.randrange(len(items) + 1), (b"", hx(b""), b""))
         arg = b"".join(a + RS for a, _, _ in items)
         return arg, show_list([c for _, c, _ in items]), [v for _, _, v in items]
     return gen_value(rng, kind)
